@@ -200,8 +200,14 @@ func c10ValueFor(r *rng, t string) string {
 		return strings.Join(fs, " ")
 	case "TXT":
 		if r.chance(1, 10) {
-			// a long text (TXT values have no length bound in the rule syntax): just above 255 / 256 / 300 / 1024 / 4096 / 65535 bytes
-			return c10LongText(r, n2Above(r, 64, 70000))
+			// a long text (TXT values have no length bound in the rule syntax): just above 255 / 256 / 300 / 1024 / 4096 bytes; in
+			// the c10 family itself (linear model of loadDNSRewrite) also above 8192 / 16384 / 65535 bytes, but rarely
+			max := c10TxtMax
+			if max > 4200 && !r.chance(1, 8) {
+				max = 4200
+			}
+
+			return c10LongText(r, n2Above(r, 64, max))
 		}
 
 		return pick(r, []string{"hello", "", "hello world", "v=spf1 -all", "a;b;c", "\x00\xff", "."})
@@ -219,6 +225,10 @@ func c10GoodNum(r *rng, own []string) string {
 
 	return n2U16(r)
 }
+
+// c10TxtMax bounds the long TXT values: 4200 bytes for every family that embeds c10Value into a rule LINE (the full
+// models of NewRule are not linear in the line length); genC10 raises it for its own ops.
+var c10TxtMax = 4200
 
 func c10LongText(r *rng, n int) string {
 	var sb strings.Builder
@@ -357,6 +367,8 @@ func c10Go(v string) (ans string, rw, viaRule *rules.DNSRewrite) {
 }
 
 func genC10(r *rng, n int, w *bufio.Writer) {
+	c10TxtMax = 70000
+	defer func() { c10TxtMax = 4200 }()
 	for i := 0; i < n; i++ {
 		v := c10Value(r)
 		if r.chance(1, 5) {
